@@ -52,17 +52,20 @@ def make_header(proj, crval, scale, rot, flip, crpix):
             if proj == "TPV0" and k in ("pv1_0", "pv2_0"):
                 val = 0.0
             h[k] = val
-    elif proj in ("SIP2", "SIP3", "SIP4"):
-        order = int(proj[-1])
-        h.update(ctype1="RA---TAN-SIP", ctype2="DEC--TAN-SIP", a_order=order, b_order=order,
+    elif proj in ("SIP2", "SIP3", "SIP4", "SIP23", "SIP32"):
+        # SIP23 / SIP32: A_ORDER and B_ORDER differ (each polynomial has its own order)
+        aorder, border = (int(proj[-2]), int(proj[-1])) if len(proj) == 5 else (int(proj[-1]), int(proj[-1]))
+        order = max(aorder, border)
+        h.update(ctype1="RA---TAN-SIP", ctype2="DEC--TAN-SIP", a_order=aorder, b_order=border,
                  ap_order=order + 1, bp_order=order + 1)
         co = {(2, 0): 1e-6, (1, 1): -2e-6, (0, 2): 3e-6, (3, 0): 1e-10, (2, 1): -2e-10, (1, 2): 1.5e-10,
               (0, 3): -1e-10,
               # fourth order: coefficients below the float64 epsilon, yet 1e-3 px at the chip corners
               (4, 0): 1.0e-16, (3, 1): -5.0e-17, (2, 2): 8.0e-17, (1, 3): 4.0e-17, (0, 4): -1.2e-16}
         for (p, q), v in co.items():
-            if p + q <= order:
+            if p + q <= aorder:
                 h["a_%d_%d" % (p, q)] = v
+            if p + q <= border:
                 h["b_%d_%d" % (q, p)] = -0.7 * v
     else:
         raise ValueError(proj)
@@ -81,7 +84,7 @@ def forward(h, x, y, distort=True):
     v = y - LD(h["crpix2"])
     proj = h["ctype1"][4:].strip()
     if proj == "-TAN-SIP" and distort:
-        ao = h["a_order"]
+        ao = max(h["a_order"], h["b_order"])      # each polynomial has its own order; absent coefficients are 0
         du = 0
         dv = 0
         for p in range(ao + 1):
@@ -159,14 +162,15 @@ def inverse_fit_residual(h, ng=40):
     v = Y - h["crpix2"]
     proj = h["ctype1"][4:].strip()
     if proj == "-TAN-SIP":
-        ao = h["a_order"]
+        ao = max(h["a_order"], h["b_order"])
         du = 0
         dv = 0
         for p in range(ao + 1):
             for q in range(ao + 1):
                 du = du + h.get("a_%d_%d" % (p, q), 0.0) * u ** p * v ** q
                 dv = dv + h.get("b_%d_%d" % (p, q), 0.0) * u ** p * v ** q
-        U, V, tu, tv, scale, const, deg = u + du, v + dv, u, v, 1.0, False, ao + 1
+        # when A_ORDER != B_ORDER "the same degree" is ambiguous: the lenient reading (smaller order + 1) is used
+        U, V, tu, tv, scale, const, deg = u + du, v + dv, u, v, 1.0, False, min(h["a_order"], h["b_order"]) + 1
     else:
         xi = h["cd1_1"] * u + h["cd1_2"] * v
         eta = h["cd2_1"] * u + h["cd2_2"] * v
